@@ -34,8 +34,8 @@ ASSUMES = ["time stamps and spans within [0, 2^63-1]; int64 wrap-around modelled
 PARTIAL = ("C10_step_exact_partial / C10_full_traversal_partial carry the visible hypothesis layout_ok (ascending index stamps, sorted "
            "data domains, each data domain within a contiguous run of index domains with one sample per index stamp; decidable "
            "check layout_okb proved sound, satisfied by every generated layout — see layout_guard_sample); that legal histories "
-           "only produce such layouts is observed, not proved. Backward full traversal and the per-series clause: correspondence + "
-           "monitor only. Known finding F24 (C10-auto-prev-eof): backwardStamp makes Prev(AutoSpan) report EOF on a domain "
+           "only produce such layouts is observed, not proved. The per-series clause of the monitor: correspondence + monitor "
+           "only (structural theorem C10_step_frame). Known finding F24 (C10-auto-prev-eof): backwardStamp makes Prev(AutoSpan) report EOF on a domain "
            "boundary; not fixed.")
 
 CMDS = {"seek_first": "SeekFirst", "seek_last": "SeekLast", "next_auto": "NextAuto", "prev_auto": "PrevAuto"}
@@ -348,14 +348,14 @@ LEVEL_TEXT = ("Machine-checked Coq theorems over an executable Gallina copy of i
               "satisfying the hypothesis layout_ok (decidable check proved sound), every bounds and EVERY command sequence each non-erroring command returns exactly "
               "the stored samples of its view (C10_step_exact_partial, by a structural theorem: the frame of a step is the in-order slices "
               "of all domains overlapping the view, wherever earlier commands left the domain iterator); for ALL layouts step views lie in "
-              "the bounds and consecutive same-direction steps are adjacent (C10_views_adjacent_and_bounded); a forward traversal visits "
-              "every in-bounds sample exactly once (C10_full_traversal_partial). The model is tied to /repo on every run by writing "
+              "the bounds and consecutive same-direction steps are adjacent (C10_views_adjacent_and_bounded); a forward and a backward full "
+              "traversal visit every in-bounds sample exactly once (C10_full_traversal_partial, C10_full_traversal_backward_partial). The model is tied to /repo on every run by writing "
               "generated layouts through the real cesium writer, driving the real unary.Iterator and comparing ok/Valid/View/Error/series "
               "after every command inside Coq; a decidable monitor states the property on the implementation's observations.")
 LEVEL_NOTE = ("Trusted: Coq kernel/vm_compute; hand-written model (tied by correspondence, not translation); harness + hook "
               "VerifOpenUnaryIterator; sample<->bytes codec of the harness; generator. Theorems closed under the global context. "
-              "partial: exactness/traversal theorems carry the hypothesis layout_ok and the forward "
-              "direction; the rest is observed by the correspondence. Finding F1 (stepping relied on the stale domain-iterator position; "
+              "partial: exactness/traversal theorems carry the visible hypothesis layout_ok (decidable check proved sound, all generated "
+              "layouts inside); that legal histories only produce such layouts is observed by the correspondence. Finding F1 (stepping relied on the stale domain-iterator position; "
               "AutoSpan chunk loops returned samples outside the view, panicked, or recursed without bound) was found by this check and "
               "repaired by fix commit e87d2c5 (C10_legacy_steps_refuted keeps witnesses); F24 (backwardStamp EOF) is a known finding "
               "exercised by a separate stream so that it never masks other rejections. Errors reported by a step exempt it from the "
